@@ -69,6 +69,8 @@ def check_element_call(ctx, I, seg, element_type, parent_path, name, k, lst, str
 class ArrayLoop:
     """process_array: `for index in range(count)`"""
 
+    kind = "for"
+
     def run(self, I, node, frame):
         ctx = I.ctx
         it = yield from I.eval(node.iter, frame)
@@ -119,6 +121,8 @@ class ArrayLoop:
 class ByteSizedLoop:
     """process_byte_sized_array: `while region.size_already < region.size_max` with the element decode in a try block"""
 
+    kind = "while"
+
     def run(self, I, node, frame):
         ctx = I.ctx
         site = I.site(node, frame)
@@ -162,6 +166,8 @@ class ByteSizedLoop:
 
 class StreamLoop:
     """process_command_response_stream: `while True:` command then response"""
+
+    kind = "while"
 
     def run(self, I, node, frame):
         ctx = I.ctx
